@@ -33,7 +33,10 @@ JudgeToBytes(e) ==
   IF e.out.k = "panic" THEN {"C04"}
   ELSE (IF CopiesOk(e) THEN {} ELSE {"C04"}) \cup
        (IF x.k = "ok"
-        THEN IF e.out.k # "ok" THEN {"C04"}
+        THEN IF e.out.k # "ok"
+             \* refused although it fits: the limit rule (C04); with no caller-chosen limit also "serialising
+             \* yields the wire image" (C01)
+             THEN (IF e.api = "to_bytes_with_limit" THEN {"C04"} ELSE {"C01", "C04"})
              ELSE (IF Len(e.out.bytes) = WireLen(m) THEN {} ELSE {"C04"})
                   \* the header's token-length nibble is written as stored (it can disagree with the
                   \* token when the public header field was replaced); the limit rule counts the bytes sent
